@@ -150,9 +150,10 @@ func (s *Sim) tail(n int) []string {
 }
 
 type Topology struct {
-	Chains int
-	Links  [][2]int
-	V2On   map[int]bool
+	Chains  int
+	Links   [][2]int
+	V2On    map[int]bool
+	WideIDs bool
 }
 
 func Triangle() Topology {
@@ -169,6 +170,23 @@ func NewSim(c *kit.Check, r *kit.Rng, topo Topology) *Sim {
 	for i, lk := range topo.Links {
 		a, b := s.Ch[lk[0]].TestChain, s.Ch[lk[1]].TestChain
 		p := ibctesting.NewTransferPath(a, b)
+		if topo.WideIDs {
+			// identifiers that are textual prefixes of one another on the chain in the middle (channel-K towards one neighbour,
+			// channel-K<digits> towards the other), as on any chain with more than ten channels; allocation stays the keeper's own
+			p.DisableUniqueChannelIDs()
+			k := uint64(1 + r.Intn(9))
+			seqs := [][2]uint64{{20 + uint64(r.Intn(5)), k}, {k*10 + uint64(r.Intn(10)), 30 + uint64(r.Intn(5))}, {40 + uint64(r.Intn(5)), 50 + uint64(r.Intn(5))}}
+			if r.Intn(3) == 0 {
+				seqs[1][0] = k*100 + uint64(r.Intn(100))
+			}
+			for e, ch := range []*kit.Chain{s.Ch[lk[0]], s.Ch[lk[1]]} {
+				n := seqs[i%len(seqs)][e]
+				ch.InBlock(func(ctx sdk.Context) error {
+					ch.App.GetIBCKeeper().ChannelKeeper.SetNextChannelSequence(ctx, n)
+					return nil
+				})
+			}
+		}
 		p.Setup()
 		l := &Link{X: lk[0], Y: lk[1], P: p}
 		if topo.V2On[i] {
